@@ -492,6 +492,7 @@ type worker struct {
 	be          map[string]storage.Backend
 	cur         *handlerSet // the handler of the case being judged: every case gets a fresh one, so cases are independent of each other
 	caseSeq     int
+	trimSeq     int
 	fixture     map[string][][][]byte // measurement -> type -> dup -> bytes
 	seq         int
 	stats       map[string]int64
